@@ -1,14 +1,17 @@
 package ingestfuzz
 
 import (
+	"encoding/binary"
 	"fmt"
 	"math"
 	"os"
+	"strings"
 	"testing"
 
 	"github.com/openconfig/gnmi/metadata"
 	pb "github.com/openconfig/gnmi/proto/gnmi"
 	"google.golang.org/protobuf/proto"
+	"pgregory.net/rapid"
 	"verif/harness/internal/vstat"
 )
 
@@ -43,6 +46,102 @@ func seedNotifications() []*pb.Notification {
 		}
 	}
 	out = append(out, &pb.Notification{}, &pb.Notification{Prefix: &pb.Path{}}, &pb.Notification{Prefix: &pb.Path{Target: "*"}, Delete: []*pb.Path{{Elem: []*pb.PathElem{{Name: "*"}}}}})
+	return append(out, sizeSeedNotifications()...)
+}
+
+func keyedElem(name string, nk int) *pb.PathElem {
+	e := &pb.PathElem{Name: name, Key: map[string]string{}}
+	for j := 0; j < nk; j++ {
+		e.Key[fmt.Sprintf("k%d", j)] = fmt.Sprint(j % 3)
+	}
+	return e
+}
+
+func longPath(n int) *pb.Path {
+	p := &pb.Path{}
+	for i := 0; i < n; i++ {
+		p.Elem = append(p.Elem, &pb.PathElem{Name: string(rune('a' + i%3))})
+	}
+	return p
+}
+
+// sizeSeedNotifications: every size dimension on both sides of the usual
+// capacity steps. Byte mutation rarely synthesises, say, nine well-formed map
+// entries inside one nested path element, so the corpus starts from them.
+func sizeSeedNotifications() []*pb.Notification {
+	var out []*pb.Notification
+	iv := func(i int) *pb.TypedValue { return &pb.TypedValue{Value: &pb.TypedValue_IntVal{IntVal: int64(i)}} }
+	dev := func() *pb.Path { return &pb.Path{Target: "dev"} }
+	for _, n := range []int{3, 4, 5, 8, 9, 16, 17} {
+		// keys of one element: in an update path, a delete path, the prefix, an atomic prefix
+		out = append(out, &pb.Notification{Timestamp: 5, Prefix: dev(), Update: []*pb.Update{{Path: &pb.Path{Elem: []*pb.PathElem{{Name: "l"}, keyedElem("e", n), {Name: "v"}}}, Val: iv(n)}}})
+		out = append(out, &pb.Notification{Timestamp: 5, Prefix: dev(), Delete: []*pb.Path{{Elem: []*pb.PathElem{keyedElem("e", n)}}}})
+		out = append(out, &pb.Notification{Timestamp: 5, Prefix: &pb.Path{Target: "dev", Elem: []*pb.PathElem{keyedElem("e", n)}}, Update: []*pb.Update{{Path: &pb.Path{Elem: []*pb.PathElem{{Name: "v"}}}, Val: iv(n)}}})
+		out = append(out, &pb.Notification{Timestamp: 5, Atomic: true, Prefix: &pb.Path{Target: "dev", Elem: []*pb.PathElem{{Name: "l"}, keyedElem("e", n)}}, Update: []*pb.Update{{Path: &pb.Path{Elem: []*pb.PathElem{keyedElem("v", n)}}, Val: iv(n)}}})
+	}
+	for _, n := range []int{5, 9, 17, 33, 40} {
+		// elements of one path, in both encodings, in the prefix
+		out = append(out, &pb.Notification{Timestamp: 5, Prefix: dev(), Update: []*pb.Update{{Path: longPath(n), Val: iv(n)}}, Delete: []*pb.Path{longPath(n - 1)}})
+		out = append(out, &pb.Notification{Timestamp: 5, Prefix: &pb.Path{Target: "dev", Elem: longPath(n).Elem}, Update: []*pb.Update{{Path: longPath(n), Val: iv(n)}}})
+		el := &pb.Path{}
+		for i := 0; i < n; i++ {
+			el.Element = append(el.Element, "e")
+		}
+		out = append(out, &pb.Notification{Timestamp: 5, Prefix: dev(), Update: []*pb.Update{{Path: el, Val: iv(n)}}})
+	}
+	for _, n := range []int{5, 17, 65, 257} {
+		// entries of one notification
+		no := &pb.Notification{Timestamp: 5, Prefix: dev()}
+		at := &pb.Notification{Timestamp: 5, Atomic: true, Prefix: &pb.Path{Target: "dev", Elem: []*pb.PathElem{{Name: "at"}}}}
+		for i := 0; i < n; i++ {
+			p := &pb.Path{Elem: []*pb.PathElem{{Name: "l"}, {Name: "e", Key: map[string]string{"k": fmt.Sprint(i)}}}}
+			no.Update = append(no.Update, &pb.Update{Path: p, Val: iv(i)})
+			at.Update = append(at.Update, &pb.Update{Path: p, Val: iv(i)})
+			if i%2 == 0 {
+				no.Delete = append(no.Delete, p)
+			}
+		}
+		out = append(out, no, at)
+		// elements of a leaf-list
+		sa := &pb.ScalarArray{}
+		for i := 0; i < n; i++ {
+			sa.Element = append(sa.Element, iv(i))
+		}
+		out = append(out, &pb.Notification{Timestamp: 5, Prefix: dev(), Update: []*pb.Update{{Path: longPath(2), Val: &pb.TypedValue{Value: &pb.TypedValue_LeaflistVal{LeaflistVal: sa}}}}})
+	}
+	for _, n := range []int{3, 17, 40} {
+		// leaf-lists inside leaf-lists
+		tv := iv(n)
+		for i := 0; i < n; i++ {
+			tv = &pb.TypedValue{Value: &pb.TypedValue_LeaflistVal{LeaflistVal: &pb.ScalarArray{Element: []*pb.TypedValue{tv}}}}
+		}
+		out = append(out, &pb.Notification{Timestamp: 5, Prefix: dev(), Update: []*pb.Update{{Path: longPath(2), Val: tv}}})
+	}
+	for _, n := range []int{255, 256, 4096, 5000} {
+		// long strings wherever a string goes
+		l := strings.Repeat("x", n)
+		out = append(out, &pb.Notification{Timestamp: 5, Prefix: &pb.Path{Target: "dev", Origin: l}, Update: []*pb.Update{{Path: &pb.Path{Elem: []*pb.PathElem{{Name: l, Key: map[string]string{l: l}}}}, Val: &pb.TypedValue{Value: &pb.TypedValue_StringVal{StringVal: l}}}}})
+		out = append(out, &pb.Notification{Timestamp: 5, Prefix: &pb.Path{Target: l}, Update: []*pb.Update{{Path: &pb.Path{Element: []string{l}}, Val: &pb.TypedValue{Value: &pb.TypedValue_JsonVal{JsonVal: []byte(`"` + l + `"`)}}}}})
+		out = append(out, &pb.Notification{Timestamp: 5, Prefix: dev(), Update: []*pb.Update{{Path: &pb.Path{Elem: []*pb.PathElem{{Name: "meta"}, {Name: "connectError"}}}, Val: &pb.TypedValue{Value: &pb.TypedValue_StringVal{StringVal: l}}}}})
+	}
+	return out
+}
+
+// generatedSeeds adds what the structured generators draw when every size
+// dimension is large, for a few fixed seeds (deterministic).
+func generatedSeeds[M any](n int, gen func(*rapid.T) M) []M {
+	var out []M
+	g := rapid.Custom(func(t *rapid.T) M {
+		bigDims = map[string]bool{}
+		for _, d := range allDims {
+			bigDims[d] = true
+		}
+		defer func() { bigDims = nil }()
+		return gen(t)
+	})
+	for i := 1; i <= n; i++ {
+		out = append(out, g.Example(i))
+	}
 	return out
 }
 
@@ -80,6 +179,9 @@ func FuzzC12Notification(f *testing.F) {
 	for _, n := range seedNotifications() {
 		f.Add(wire(n), true, uint8(3))
 	}
+	for _, n := range generatedSeeds(24, func(t *rapid.T) *pb.Notification { return genNotification(t, allTargets) }) {
+		f.Add(wire(n), false, uint8(0))
+	}
 	rec := fuzzRecorder("fuzz-notification")
 	count := 0
 	f.Fuzz(func(t *testing.T, b []byte, stamp bool, life uint8) {
@@ -109,6 +211,18 @@ func FuzzC12SubscribeRequest(f *testing.F) {
 			}
 		}
 	}
+	// sizes: subscriptions per list, keys per element, elements per path, long strings; undeclared enum numbers near and far
+	for _, mode := range []pb.SubscriptionList_Mode{0, 1, 2, 3, 4, 16, 17, -1, math.MaxInt32, math.MinInt32} {
+		for _, n := range []int{5, 9, 17, 65, 100} {
+			sl := &pb.SubscriptionList{Mode: mode, Encoding: pb.Encoding(n), Prefix: &pb.Path{Target: "dev", Elem: []*pb.PathElem{keyedElem("e", n%18)}}}
+			for i := 0; i < n; i++ {
+				sl.Subscription = append(sl.Subscription, &pb.Subscription{Mode: pb.SubscriptionMode(i - 1), Path: &pb.Path{Elem: []*pb.PathElem{{Name: "l"}, keyedElem("e", i%18), {Name: "*"}}}})
+			}
+			sl.Subscription = append(sl.Subscription, &pb.Subscription{Path: longPath(n % 41)}, &pb.Subscription{Path: &pb.Path{Origin: strings.Repeat("o", n*50), Elem: []*pb.PathElem{{Name: strings.Repeat("n", n*50)}}}})
+			seeds = append(seeds, &pb.SubscribeRequest{Request: &pb.SubscribeRequest_Subscribe{Subscribe: sl}})
+		}
+	}
+	seeds = append(seeds, generatedSeeds(24, func(t *rapid.T) *pb.SubscribeRequest { return genSubscribeRequest(t, true, allTargets) })...)
 	for _, s := range seeds {
 		f.Add(wire(s), wire(&pb.SubscribeRequest{Request: &pb.SubscribeRequest_Poll{Poll: &pb.Poll{}}}))
 	}
@@ -149,4 +263,170 @@ func FuzzC12SubscribeResponse(f *testing.F) {
 		sc.Timestamp = []string{"", "on", "raw"}[int(mode/12)%3]
 		fuzzRun(t, rec, &count, sc)
 	})
+}
+
+// ---- the life of one (cache, server) pair as fuzz input -------------------------------------------
+//
+// A life scenario is flattened into one byte string of records
+//   header, a, b, uvarint(len), payload
+// header: bits 0-1 kind (0 n, 1 r, 2 l, 3 p), bit 2 stamp, bit 3 cancel, bit 4 noauth, bits 5-7 hold;
+// a: target / peer; b: lifecycle call; payload: the Notification, or the uvarint-delimited SubscribeRequests.
+// Every byte string decodes to some scenario (at most 400 steps), so the mutator can splice,
+// duplicate and reorder the steps of a life.
+
+var (
+	lifeCalls = []string{"sync", "connect", "connecterr", "updmeta", "updsize", "stats", "reset", "remove", "add"}
+	lifeHolds = []int{0, 0, 1, 2, 5, 20, 100, 0}
+)
+
+func encodeLife(ops []LifeOp) []byte {
+	var out []byte
+	for _, op := range ops {
+		h := byte(strings.Index("nrlp", op.Op) & 3)
+		if op.Stamp {
+			h |= 4
+		}
+		if op.Cancel {
+			h |= 8
+		}
+		if op.NoAuth {
+			h |= 16
+		}
+		for i, v := range lifeHolds {
+			if v == op.Hold {
+				h |= byte(i) << 5
+				break
+			}
+		}
+		a, b := byte(op.Target), byte(0)
+		if op.Op == "r" {
+			a = byte(op.Peer)
+		}
+		for i, c := range lifeCalls {
+			if c == op.Call {
+				b = byte(i)
+			}
+		}
+		payload := op.Msg
+		if op.Op == "r" {
+			payload = nil
+			for _, r := range op.Reqs {
+				payload = binary.AppendUvarint(payload, uint64(len(r)))
+				payload = append(payload, r...)
+			}
+		}
+		out = append(out, h, a, b)
+		out = binary.AppendUvarint(out, uint64(len(payload)))
+		out = append(out, payload...)
+	}
+	return out
+}
+
+func takeChunk(b []byte) (chunk, rest []byte) {
+	n, w := binary.Uvarint(b)
+	if w <= 0 {
+		return nil, nil
+	}
+	b = b[w:]
+	if n > uint64(len(b)) {
+		n = uint64(len(b))
+	}
+	return b[:n], b[n:]
+}
+
+func decodeLife(b []byte) []LifeOp {
+	var ops []LifeOp
+	for len(b) >= 3 && len(ops) < 400 {
+		h, a, c := b[0], b[1], b[2]
+		var payload []byte
+		payload, b = takeChunk(b[3:])
+		op := LifeOp{Op: string("nrlp"[h&3]), Target: int(a)}
+		switch op.Op {
+		case "n":
+			op.Stamp, op.Msg = h&4 != 0, payload
+		case "r":
+			op.Cancel, op.NoAuth, op.Hold, op.Peer, op.Target = h&8 != 0, h&16 != 0, lifeHolds[h>>5], int(a), 0
+			for len(payload) > 0 && len(op.Reqs) < 8 {
+				var r []byte
+				r, payload = takeChunk(payload)
+				op.Reqs = append(op.Reqs, r)
+			}
+		case "l":
+			op.Call = lifeCalls[int(c)%len(lifeCalls)]
+		case "p":
+			op.Peer = int(c)
+		}
+		ops = append(ops, op)
+	}
+	return ops
+}
+
+func lifeOptsOf(bits uint8) []string {
+	var out []string
+	for i, o := range lifeOpts {
+		if bits&(1<<i) != 0 {
+			out = append(out, o)
+		}
+	}
+	return out
+}
+
+func FuzzC12Life(f *testing.F) {
+	// seeds: generated lives, and the flattened single-message corpora as short lives
+	for i := 1; i <= 40; i++ {
+		sc := rapid.Custom(genLife).Example(i)
+		var bits uint8
+		for j, o := range lifeOpts {
+			for _, have := range sc.Opts {
+				if have == o {
+					bits |= 1 << j
+				}
+			}
+		}
+		f.Add(encodeLife(sc.Ops), bits, uint8(sc.Targets-2))
+	}
+	var ops []LifeOp
+	for i, n := range sizeSeedNotifications() {
+		ops = append(ops, LifeOp{Op: "n", Msg: wire(n)})
+		if i%8 == 7 {
+			ops = append(ops, LifeOp{Op: "p"}, LifeOp{Op: "l", Call: "updmeta"})
+		}
+	}
+	f.Add(encodeLife(ops), uint8(0xff), uint8(0))
+	rec := fuzzRecorder("fuzz-life")
+	count := 0
+	f.Fuzz(func(t *testing.T, data []byte, opts uint8, targets uint8) {
+		sc := &Scenario{Kind: "life", Opts: lifeOptsOf(opts), Targets: 2 + int(targets)%39, Ops: decodeLife(data)}
+		if len(sc.Ops) == 0 {
+			return
+		}
+		fuzzRun(t, rec, &count, sc)
+	})
+}
+
+// TestLifeCodec: what encodeLife writes, decodeLife reads back (the fuzz corpus means what it says).
+func TestLifeCodec(t *testing.T) {
+	for i := 1; i <= 20; i++ {
+		sc := rapid.Custom(genLife).Example(i)
+		back := decodeLife(encodeLife(sc.Ops))
+		if len(back) != len(sc.Ops) {
+			t.Fatalf("example %d: %d steps, decoded %d", i, len(sc.Ops), len(back))
+		}
+		for j := range back {
+			a, b := sc.Ops[j], back[j]
+			a.Text = ""
+			if a.Op == "r" {
+				a.Target = 0
+			}
+			if a.Op != "l" && a.Op != "p" && a.Op != "n" {
+				a.Target = 0
+			}
+			if a.Op == "p" {
+				a.Peer = b.Peer // the probe's peer is not kept
+			}
+			if fmt.Sprint(a) != fmt.Sprint(b) {
+				t.Fatalf("example %d step %d: %+v decoded as %+v", i, j, a, b)
+			}
+		}
+	}
 }
